@@ -1019,6 +1019,12 @@ class World:
                 put(slot, sig[:64] + bytes([new]))
             else:
                 types = [1, 2, 3, 0x81, 0x82, 0x83]
+                if mut.get("undefined"):
+                    # a type byte that differs from the signed one only in bits the defined types do not use (bits 2..6): the digest
+                    # commits to the whole byte, so the signature no longer verifies
+                    new = sig[-1] ^ [0x04, 0x40, 0x7C, 0x20, 0x08, 0x10][b % 6]
+                    put(slot, sig[:-1] + bytes([new]))
+                    return "retag_sighash_undefined_bits"
                 new = [t for t in types if t != sig[-1]][b % 5]
                 put(slot, sig[:-1] + bytes([new]))
             return "retag_sighash" + ("_not_last" if slot != sig_slots[-1] else "_last")
@@ -1440,6 +1446,8 @@ def generate(ch, tier, prop):
                     tkind = plan["inputs"][st["i"] % len(plan["inputs"])]["kind"]
                     tk = ch.choice(TAMPER_BY_KIND[tkind]) if ch.chance(0.8) else ch.choice(TAMPER)
                     t["mut"] = {"kind": "flip" if tk == "flip_ss" else tk, "a": ch.randrange(10000), "b": ch.randrange(256), "region": "ss" if tk == "flip_ss" else ch.choice(["w", "w", "ss"])}
+                    if tk == "retag" and ch.chance(0.4):
+                        t["mut"]["undefined"] = True
                 out.append(t)
         plan["steps"] = out
     return plan
@@ -1527,6 +1535,15 @@ def enumerate_plans(tier, prop, seed):
                     t["mut"] = {"kind": "flip" if tk == "flip_ss" else tk, "a": (r.randrange(10000) if tk != "sigfree_opcodes" else rep * 3 + 1 + (rep % 2)), "b": (r.randrange(256) if tk != "sigfree_opcodes" else rep), "region": "ss" if tk == "flip_ss" else "w"}
                 yield {"version": 2, "locktime": 0, "inputs": [spec], "outputs": [{"amount": 90000, "spk": tm.spk_p2wpkh(bytes(20)).hex()}, {"amount": 5000, "spk": tm.spk_p2pkh(bytes(20)).hex()}],
                        "steps": [{"op": "sign", "i": 0, "ht": r.choice([0, 1, 3, 0x81]), "pick": r.randrange(1000), "partial_first": kind == "p2tr_script" and rep % 2 == 0, "extra_signer": kind == "p2tr_script" and tk == "none"}, t], "enum": "catalogue"}
+    # sighash byte changed in bits no defined type uses: every ECDSA kind x six bit patterns
+    for kind in ("p2pkh", "p2sh_ms", "p2wpkh", "p2sh_p2wpkh", "p2wsh_ms", "p2sh_p2wsh_ms"):
+        for v in range(6):
+            n = 1 if kind in ("p2pkh", "p2wpkh", "p2sh_p2wpkh") else 2
+            spec = {"kind": kind, "txid": "%064x" % r.getrandbits(256), "vout": 0, "sequence": 0xFFFFFFFE, "amount": 100000, "keys": r.sample(range(8), n)}
+            if n > 1:
+                spec["m"] = n
+            yield {"version": 2, "locktime": 0, "inputs": [spec], "outputs": [{"amount": 90000, "spk": tm.spk_p2wpkh(bytes(20)).hex()}],
+                   "steps": [{"op": "sign", "i": 0, "ht": 1, "pick": v}, {"op": "transmit", "i": 0, "mut": {"kind": "retag", "a": v, "b": v, "region": "w", "undefined": True}}], "enum": "retag-undefined-bits"}
     # degenerate signature values in every signature slot: every variant x every kind
     for kind in KINDS:
         for v in range(5):
